@@ -94,6 +94,12 @@ def curated():
     D["schedule_before_conflicting"] = {"items": [M("A", iw=0), M("B", iw=0, ready=["run_or", "A"]), M("C", iw=0, ow=0), T("T0", [call("A"), call("C", en=True)]), T("T1", [call("B"), call("C")])],
                                         "relations": [["before", "A", "B", False]]}
     D["ready_dependent"] = {"items": [T("T0"), T("T1", [wit("comb")])], "relations": [["before", "T0", "T1", True]]}
+    D["ready_dependent_two_sources"] = {"items": [T("T0"), T("T1"), T("T2", [wit("comb")])], "relations": [["before", "T0", "T2", True], ["before", "T1", "T2", True]]}
+    D["ready_dependent_nested_plus_explicit"] = {"items": [T("TG"), T("T0", [wit("comb"), {"k": "trans", "name": "TN", "ready": "free", "body": [wit("comb")]}])],
+                                                 "relations": [["before", "TG", "TN", True]]}
+    D["ready_dependent_method_two_sources"] = {"items": [M("A", iw=0), M("B", iw=0), M("C", iw=0), T("T0", [call("A")]), T("T1", [call("B")]), T("T2", [call("C")])],
+                                               "relations": [["before", "A", "C", True], ["before", "B", "C", True]]}
+    D["ready_dependent_chain"] = {"items": [T("T0"), T("T1"), T("T2"), T("T3")], "relations": [["before", "T0", "T1", True], ["before", "T1", "T2", True], ["before", "T0", "T3", True], ["before", "T2", "T3", True]]}
     D["method_in_if"] = {"items": [T("T0", [If([{"k": "method", "name": "MN", "iw": 0, "ow": 1, "ready": "free", "body": [wit("comb")]}])]), T("T1", [call("MN")])]}
     D["three_way"] = {"items": [M("A"), M("B"), M("C"), T("T0", [call("A"), call("B")]), T("T1", [call("B"), call("C")]), T("T2", [call("C"), call("A")])]}
     D["rets_as_args"] = {"items": [M("A", iw=2, ow=2, out="inc"), M("B", iw=2, ow=2), T("T0", [call("A"), call("B", arg=["ret", 0])])]}
@@ -208,6 +214,12 @@ def random_spec(rng, max_t=3, max_m=3, allow_relations=True, allow_nested=True):
             if a is None:
                 break
             rels.append(["conflict", a, b, rng.choice(["U", "L", "R"])])
+        # schedule_before relations (source defined before target), some of them ready-dependent
+        order = mnames + tnames
+        for _ in range(rng.randint(0, 2)):
+            if len(order) >= 2 and rng.random() < 0.5:
+                i, j = sorted(rng.sample(range(len(order)), 2))
+                rels.append(["before", order[i], order[j], allow_nested and rng.random() < 0.6])
     return {"items": items, "relations": rels}
 
 
